@@ -18,8 +18,8 @@ import tempfile
 VERIF = os.path.dirname(os.path.dirname(os.path.abspath(__file__)))
 
 
-def sh(cmd, cwd=None, timeout=1800):
-    p = subprocess.run(cmd, shell=True, cwd=cwd, stdout=subprocess.PIPE, stderr=subprocess.STDOUT, text=True, timeout=timeout)
+def sh(cmd, cwd=None, timeout=1800, env=None):
+    p = subprocess.run(cmd, shell=True, cwd=cwd, env=env, stdout=subprocess.PIPE, stderr=subprocess.STDOUT, text=True, timeout=timeout)
     return p.returncode, p.stdout
 
 
@@ -60,14 +60,14 @@ def verify(seed, wt):
         cmd = demo_cmd(seed, wt)
         res['demo_cmd'] = cmd
         if cmd:
-            rc, out = sh(cmd, cwd=seed)
+            rc, out = sh(cmd, cwd=seed, env=dict(os.environ, WT=wt))
             res['demo_with_patch_rc'] = rc
             res['demo_with_patch_tail'] = out[-600:]
     finally:
         sh('git -C %s checkout -- .' % wt)
     rc, out = sh('cmake --build %s/_b 2>&1 | tail -1' % wt)
     if cmd:
-        rc, out = sh(cmd, cwd=seed)
+        rc, out = sh(cmd, cwd=seed, env=dict(os.environ, WT=wt))
         res['demo_without_patch_rc'] = rc
         res['demo_without_patch_tail'] = out[-300:]
     shutil.rmtree('%s/_b' % wt, ignore_errors=True)
